@@ -493,6 +493,18 @@ class Input(object):
         #     self.unlocking_script = script_add_locktime_csv(self.locktime_csv, self.unlocking_script)
         return True
 
+    def witness_data(self):
+        """
+        Serialize the witness stack of this input: the number of items followed by each item with its length.
+
+        An empty witness item is represented by b'\\0' in the witnesses list (also used for the OP_0 placeholder
+        of a multisig witness) and is written as an item of length zero.
+
+        :return bytes:
+        """
+        return int_to_varbyteint(len(self.witnesses)) + \
+            b''.join([b'\0' if w in (b'', b'\0') else bytes(varstr(w)) for w in self.witnesses])
+
     def verify(self, transaction_hash, transaction_hashes=None):
         """
         Verify input with provided transaction hash, check if signatures matches public key.
@@ -1625,12 +1637,10 @@ class Transaction(object):
         for i in self.inputs:
             r += i.prev_txid[::-1] + i.output_n[::-1]
             if i.witnesses and (i.witness_type != 'legacy' or i.script_type == 'coinbase'):
-                r_witness += int_to_varbyteint(len(i.witnesses)) + b''.join([bytes(varstr(w)) for w in i.witnesses])
+                r_witness += i.witness_data()
             else:
                 r_witness += b'\0'
             if sign_id is None:
-                if i.script_type == 'nonstandard_0001':
-                    r += b'\1'
                 r += varstr(i.unlocking_script)
             elif sign_id == i.index_n:
                 if i.script_type == 'p2sh_multisig':
@@ -1684,7 +1694,7 @@ class Transaction(object):
         """
         witness_data = b''
         for i in self.inputs:
-            witness_data += int_to_varbyteint(len(i.witnesses)) + b''.join([bytes(varstr(w)) for w in i.witnesses])
+            witness_data += i.witness_data()
         return witness_data
 
     def verify(self):
